@@ -653,7 +653,13 @@ func hostilePacket(rt *rapid.T, hs hostileSetup) []byte {
 		body = append(body, topic...)
 		switch rapid.IntRange(0, 3).Draw(rt, "twist") {
 		case 0: // topic length beyond the packet
-			body[1] += byte(rapid.IntRange(1, 200).Draw(rt, "excess"))
+			if rapid.IntRange(0, 3).Draw(rt, "maximal") == 0 {
+				// (… up to the 16-bit maximum, where +2 wraps a 16-bit sum)
+				n := rapid.SampledFrom([]int{0xffff, 0xfffe, 0xfffd, 0x8000, 0x7fff}).Draw(rt, "announced")
+				body[0], body[1] = byte(n>>8), byte(n)
+			} else {
+				body[1] += byte(rapid.IntRange(1, 200).Draw(rt, "excess"))
+			}
 		case 1:
 			if qos == 1 || qos == 2 {
 				body = append(body, 0, 0) // identifier zero
